@@ -17,9 +17,11 @@
    COVERED: New, NewSize, Add, AddAll, Remove, RemoveAll (two different variables), Pop, Clear,
    Clone, Intersect, Keys (for the map whose key sequence the op names, duplicate-free), Values
    (for the map 0->v0, 1->v1, ... whose value sequence the op names), Has, HasAll, HasAny, Len,
-   IsEmpty, Intersects, IsSubset, Equals, Slice, Append, and nil assignment; every iteration order.
-   NOT COVERED (they stay with C18_history / the identity theorems + correspondence): Range (not
-   translated), s.RemoveAll(s) on one and the same map (two map arguments are two contents),
+   IsEmpty, Intersects, IsSubset, Equals, Slice, Append, nil assignment, and (since round 6) Range
+   over an iterator given as the sequence of values it yields; every iteration order.
+   NOT COVERED (they stay with C18_history / the identity theorems + correspondence): Range of the
+   NIL iterator function (the generated Range answers Go's nil-dereference panic, GFail PNil, where
+   the reference says SPanicNilFunc: C18_range_nil_is_source), s.RemoveAll(s) on one and the same map (two map arguments are two contents),
    WHICH map object a call returns and aliasing between variables (C18_identity_history,
    C18_constructor_result_fresh ...: contents carry no address), nil-ness of the slices returned by
    Slice/Append (GList has the elements). *)
@@ -70,7 +72,11 @@ Example C18_history_source_from_nil_ex :
    [2;1]; [2;0]; [3;2]; [6;3;4;9]; [1;1;2]; [1;1;2]; [1;2];
    [1;7;8]; [1;5;6]; [1]; [0]; [2;1]; [2;1]] /\
   snd (grun Z.eqb 0 gstore0 [OAdd Z 0 [1;2]; OPop Z 0 [3]; ORange Z 1 None; ORemoveAll Z 0 0 [1;2]])
-  = [GSet (Some [(1, tt); (2, tt)]); GFail PBadOrder; GFail not_translated_kind; GSet (Some [])].
+  = [GSet (Some [(1, tt); (2, tt)]); GFail PBadOrder; GFail PNil; GSet (Some [])] /\
+  (* Range through the generated function: duplicates collapse, first occurrence order; then the variable is used *)
+  forallb (src_op Z.eqb) [ORange Z 1 (Some [4;2;4;7]); ORange Z 2 (Some []); OHas Z 1 7; OLen Z 1; OIsEmpty Z 2] = true /\
+  snd (grun Z.eqb 0 gstore0 [ORange Z 1 (Some [4;2;4;7]); ORange Z 2 (Some []); OHas Z 1 7; OLen Z 1; OIsEmpty Z 2])
+  = [GSet (Some [(4, tt); (2, tt); (7, tt)]); GSet (Some []); GBool true; GInt 3; GBool true].
 Proof. vm_compute. repeat split; reflexivity. Qed.
 
 (* The same from any state: contents [g] that are those of a model store [st] (variable by
